@@ -217,6 +217,10 @@ def rules(P, R, prefix="C02"):
                         "%s under %s" % (ir.pp(n), show(pc)), "watermark update `%s` is not `= head.round` under head.round > last_committed_round (%s)" % (ir.pp(n), show(pc)))
                 R.judge(straight, prefix + ".R3", key(cf, "watermark updated on every path before the drain" + tag, i), n["sp"], "",
                         "the watermark update is conditional or after the drain loop: a later commit can re-deliver these blocks")
+                after_walk = wi is None or (ri is not None and ri > wi)
+                R.judge(after_walk, prefix + ".R3", key(cf, "watermark updated only after the ancestor walk" + tag, i), n["sp"], "",
+                        "last_committed_round is overwritten before the ancestor walk that is bounded by it: the walk compares against the NEW "
+                        "watermark and never collects the uncommitted ancestors (they are skipped for good)")
             # the watermark is stable during the walk: no write inside the walk loop / before the pushes' guards
             if walk is not None:
                 inw = [n for (f, n, k2) in lw if f is cf and any(x is n for x in ir.walk(walk))]
@@ -224,6 +228,10 @@ def rules(P, R, prefix="C02"):
 
             # ---- R4: every drained element is sent
             for (n, qn, dr), i in ordinal_keys(drains, lambda x: 0):
+                spawned = [a for a in cf.ancestors(n) if a["k"] == "call" and a.get("fn") == "tokio::task::spawn::spawn"]
+                R.judge(not spawned, prefix + ".R4", key(cf, "blocks are handed over by the committing task itself" + tag, i), n["sp"], "",
+                        "the hand-over runs in a task spawned per commit: deliveries of successive commits race for the bounded channel and can "
+                        "reach the application out of chain order")
                 par = cf.parents().get(id(n))
                 blocking = MPSC_SEND in callee_paths(n) and par is not None and par["k"] == "await"
                 R.judge(blocking, prefix + ".R4", key(cf, "hand-over to the application is a blocking send (never dropped when the channel is full)" + tag, i), n["sp"],
